@@ -66,7 +66,7 @@ HostKey(id) == [t |-> "go", id |-> id]
 Keys == << SB("a"), SB("zz"), SB("1"), SB(""), IntV(0), IntV(1), IntV(2), IntV(3), IntV(8), IntV(0 - 1), Num(96), Bool(TRUE), Bool(FALSE), Null,
            SB("Name"), SB("Age"), SB("Tags"), SB("Inner"), SB("secret"), SB("Greet"), SB("Nothing"), SB("Two"), SB("Sum"), SB("Rename"),
            SB("Self"), SB("Hello"), SB("Own"), SB("hidden"), SB("Nope"), SB("k"), IntV(1000000), SB("Wait"), SB("Level"), IntV(300), SB("Own"), SB("ID"), SB("Title"), SB("Code"), SB("Base"), SB("hiddenBase"), SB("F"), SB("N"), SB("G"),
-           HostKey("slice:int:4,5,6"), HostKey("map:ss:k=v"), HostKey("func"), HostKey("unhash"), HostKey("num:int:-64"), HostKey("num:int64:-64"), HostKey("num:int8:-64"),
+           HostKey("slice:int:4,5,6"), HostKey("map:ss:k=v"), HostKey("func"), HostKey("unhash"), HostKey("safe:1:str:a"), HostKey("safe:2:num:int:64"), HostKey("num:int:-64"), HostKey("num:int64:-64"), HostKey("num:int8:-64"),
            (* host numbers far outside the window: no container has them as a key or index; the lookup is an error, never a panic *)
            HostKey("huge:1e19"), HostKey("huge:-1e19"), HostKey("huge:1e300"), HostKey("huge:inf"), HostKey("huge:-inf"), HostKey("huge:nan"),
            HostKey("big:uint64:max"), HostKey("big:int64:min"), HostKey("big:int64:max"), SB("1e30"), SB("Inf"), SB("-1e30"), SB("NaN") >>
@@ -92,7 +92,10 @@ MethodRef(name, args) ==
                               THEN Elem(Num(args[1].q + Scale)) ELSE ErrR
     [] OTHER -> ErrR
 
-GetAttrRef(d, key, args) ==
+(* a key that comes wrapped as a safe value (the result of |raw or |escape) is the key inside *)
+KeyNorm(key) == IF key = HostKey("safe:1:str:a") THEN SB("a") ELSE IF key = HostKey("safe:2:num:int:64") THEN IntV(1) ELSE key
+GetAttrRef(d, key0, args) ==
+  LET key == KeyNorm(key0) IN
   CASE d.kind = "seq" ->
          (* an index is a whole number (or the decimal numeral of one); anything else - a word, a fraction, a boolean, null, a
             host value - cannot be used as an index and is an error, not some element *)
